@@ -123,9 +123,15 @@ func (c *Ctx) Try(key string, f func()) (panicked bool) {
 			if d, ok := r.(diverged); ok {
 				panic(d)
 			}
-			panicked = true
 			st := string(debug.Stack())
-			c.fails = append(c.fails, Failure{Key: key + "@" + panicSite(st), Msg: fmt.Sprintf("panic: %v", r), Detail: trimStack(st)})
+			site := panicSite(st)
+			if site == "?" && !strings.Contains(st, "verif/c09pkgs/") {
+				// no frame of the code under test (or of code it generated) on the stack: the harness itself is wrong.
+				// That is a tool error (no verdict), never a violation of the property.
+				panic(fmt.Sprintf("harness panic inside Try(%s): %v\n%s", key, r, st))
+			}
+			panicked = true
+			c.fails = append(c.fails, Failure{Key: key + "@" + site, Msg: fmt.Sprintf("panic: %v", r), Detail: trimStack(st)})
 		}
 	}()
 	f()
